@@ -16,6 +16,8 @@ from .core import EventLog, HarnessError, make_rng, wchoice
 CUSTOM = ["foo", "bar", "code_length", "baz", "kfoo", "code_mass", "year", "meter"]  # the last two: alternative spellings
 # the parser maps to yr / m before it asks the registry
 DEFSYMS = ["m", "s", "g", "ft", "K", "degC", "erg", "G", "dB", "degree", "pc", "Msun", "C", "T"]
+NEG_SYMS = [("J", "joule"), ("N", "newton"), ("K", "kelvin"), ("W", "watt"), ("Hz", "hertz"), ("m", "meter"), ("s", "second"),
+            ("g", "gram"), ("pc", "parsec"), ("yr", "year"), ("ft", "foot"), ("Pa", "pascal"), ("T", "tesla")]
 ALIASES = {"m": "meter", "s": "second", "g": "gram", "ft": "foot", "K": "kelvin", "pc": "parsec"}
 DIMS = ["length", "mass", "time", "temperature", "dimensionless", "velocity", "energy", "angle"]
 SCALES = [2.0, 3.0, 0.5, 1.5, 10.0, 0.3048, 1000.0, 7.0, 0.01, 42.0, 1.0]
@@ -343,6 +345,37 @@ class Gen:
             yield {"k": "quantity", "node": ni, "h": 0, "v": r.choice(VALUES), "s": sym, "route": "ctor", "store": True}
             d1 = w.last_stored
             yield {"k": "binop", "f": r.choice(["eq", "add", "lt", "sub", "max"]), "x": self.slot(w), "y": d1, "store": False}
+
+    def s_negative(self, w):
+        """Unknown first, known later: spellings of a symbol the registry does NOT hold are tried (and refused), then
+        the symbol is added or defined, then the same spellings are tried again - including the alternative names the
+        parser rewrites before it asks the registry (joule -> J, kilojoule -> kJ).  A memo of failed lookups would
+        have to be invalidated for every spelling."""
+        r = self.rng
+        ni = self.pick_node(w, custom=True)
+        if ni is None:
+            yield self.g_new_node(w, route=r.choice(["plain", "empty", "plain"]))
+            ni = len(w.nodes) - 1
+        sym, alias = r.choice(NEG_SYMS)
+        if sym in w.nodes[ni % len(w.nodes)].model:
+            yield {"k": "remove", "node": ni, "h": 0, "sym": sym}
+        pool = [sym, alias, "kilo" + alias, "k" + sym, alias + "/s", sym + "**2", alias.capitalize(), "m*" + alias, "milli" + alias]
+        spellings = r.sample(pool, r.randrange(2, 5))
+        for s_ in spellings:
+            yield {"k": r.choice(["unit", "unit", "quantity"]), "node": ni, "h": 0, "s": s_, "v": 2.0, "route": "ctor", "store": False}
+        if r.random() < 0.3:
+            yield self.g_chaos(w)
+        if r.random() < 0.7:
+            op = self.g_add(w, ni, sym)
+            op["scale"] = float(op["scale"])
+            op["prefixable"] = r.random() < 0.8
+            yield op
+        else:
+            yield {"k": "define_unit", "node": ni, "h": 0, "sym": sym, "v": r.choice(VALUES[:5]), "s": r.choice(["m", "s", "kg", "K"]),
+                   "form": r.choice(["tuple", "quantity"]), "prefixable": r.random() < 0.8, "explicit_registry": True}
+        for s_ in spellings + r.sample(pool, 2):
+            yield {"k": r.choice(["unit", "unit", "quantity"]), "node": ni, "h": r.randrange(2), "s": s_, "v": 2.0, "route": "ctor",
+                   "store": False}
 
     def s_cross(self, w):
         r = self.rng
@@ -731,7 +764,7 @@ class Gen:
                 ("s_stale", c["w_stale"]), ("s_cross", c["w_cross"]), ("s_refusal", c["w_refusal"]),
                 ("s_default", c["w_default"]), ("s_restart", c["w_restart"]), ("s_usys", c["w_usys"]),
                 ("s_usys_custom", c.get("w_usys_custom", 0)), ("s_usys_define", c["w_usys"] * 0.7),
-                ("s_quotient", 0.5 * c["w_calc"] / 4.0), ("s_em", 0.6 if c["profile"] == "C12" else 0.2),
+                ("s_negative", 0.5 if c["profile"] == "C12" else 0.15), ("s_quotient", 0.5 * c["w_calc"] / 4.0), ("s_em", 0.6 if c["profile"] == "C12" else 0.2),
                 ("s_shared_units", 0.4 if c["profile"] == "C13" else 0.15), ("s_default_copy", 0.4 if c["profile"] == "C13" else 0.1), ("s_empty_define", 0.3 if "empty" in c["routes"] or c["profile"] == "C13" else 0.1),
                 ("new_node", c["w_new_node"]), ("edit", c["w_edit"]), ("probe", c["w_probe"]),
                 ("calc", c["w_calc"]), ("chaos", c["w_chaos"]),
